@@ -691,6 +691,12 @@ class Rat:
             return NotImplemented
         if self.fv is not None:
             return Rat._f(self.fv * o.fv, self.cv * o.cv if self.cv is not None and o.cv is not None else None)
+        if not self.n.t or not o.n.t:
+            # IEEE arithmetic on the non-finite literals: 0 * inf = 0 * nan = nan (a selection written as a product with a
+            # 0/1 mask is NOT a selection when the payload may be non-finite)
+            other = o if not self.n.t else self
+            if any(isinstance(nm, Atom) and nm.kind == 'lit' for mono in other.n.t for nm, _ in mono):
+                return Rat(Poly.sym(('lit', 'nan')))
         return Rat(self.n * o.n, self.d * o.d)
     __rmul__ = __mul__
     def __truediv__(self, o):
@@ -766,7 +772,10 @@ class Rat:
             return Rat.lift(1) - self._cmp('<', o)
         if op == '<=':
             return Rat.lift(1) - o._cmp('<', self)
-        k = atom_key('bool', (op, self, o), (op, self.key(), o.key()))
+        ka, kb = self.key(), o.key()
+        if op in ('<', '==', '!=') and ka == kb:
+            return {'<': False, '==': True, '!=': False}[op]      # x < x, x == x: decided whatever x is
+        k = atom_key('bool', (op, self, o), (op, ka, kb))
         return Rat(Poly.sym(k))
     def __lt__(self, o): return self._cmp('<', o)
     def __le__(self, o): return self._cmp('<=', o)
@@ -1942,6 +1951,16 @@ class Interp:
         raise OutOfFragment('call of %r' % (fn,))
 
     def extern(self, name, args, kw):
+        if name in getattr(self, 'extern_overrides', {}):
+            # a check may replace a library call by its own oracle (e.g. random indices by concrete in-range ones)
+            return self.extern_overrides[name](*args, **kw)
+        if name == 'jax.nn.one_hot':
+            x, n = asarr(args[0]), int(Rat.lift(args[1] if len(args) > 1 else kw['num_classes']).constval())
+            out = np.empty(x.shape + (n,), dtype=object)
+            for idx in np.ndindex(*x.shape):
+                for k in range(n):
+                    out[idx + (k,)] = Rat.lift(x[idx])._cmp('==', k) if not Rat.lift(x[idx]).is_const() else Rat.lift(int(Rat.lift(x[idx]).constval() == k))
+            return out
         if name in ('jax.vmap',):
             return Vmapped(args[0], in_axes=kw.get('in_axes', args[1] if len(args) > 1 else 0), out_axes=kw.get('out_axes', 0))
         if name in ('jax.jit',):
@@ -1999,6 +2018,79 @@ class Interp:
             for x in args[0]:
                 r = r * x
             return r
+        # ---- further jax names a rewrite may reach for (each defined through modelled primitives)
+        if name == 'jax.lax.select':
+            return self.tree_map(('prim', 'sel', lambda x, y: P_where(args[0], x, y)), args[1], args[2])
+        if name == 'jax.lax.clamp':
+            return P_clip(args[1], args[0], args[2])
+        if name == 'jax.lax.fori_loop':
+            lo, hi = int(Rat.lift(args[0]).constval()), int(Rat.lift(args[1]).constval())
+            val = args[3]
+            for i_ in range(lo, hi):
+                val = self.apply(args[2], [i_, val], {})
+            return val
+        if name == 'jax.lax.switch':
+            ix = Rat.lift(args[0])
+            if not ix.is_const():
+                raise OutOfFragment('lax.switch on an abstract index')
+            br = list(args[1])
+            return self.apply(br[max(0, min(len(br) - 1, int(ix.constval())))], list(args[2:]), {})
+        if name == 'jax.lax.map':
+            return self.apply(Vmapped(args[0]), [args[1]], {})
+        if name in ('jax.checkpoint', 'jax.remat', 'jax.named_call', 'jax.ensure_compile_time_eval', 'jax.block_until_ready',
+                    'jax.device_put', 'jax.device_get'):
+            return args[0] if args else None
+        if name in ('jax.debug.print', 'jax.debug.callback', 'jax.debug.breakpoint'):
+            return None
+        if name in ('jax.nn.relu',):
+            return elemwise(lambda v: _minmax('max', v, 0), args[0])
+        if name in ('jax.nn.sigmoid', 'jax.nn.tanh', 'jax.nn.elu', 'jax.nn.gelu', 'jax.nn.selu', 'jax.nn.softsign', 'jax.nn.log_sigmoid',
+                    'jax.scipy.special.erf', 'jax.lax.erf', 'jax.scipy.special.expit'):
+            op = name.rsplit('.', 1)[1]
+            return JNP['tanh'](args[0]) if op == 'tanh' else elemwise(lambda v: uf('sigmoid' if op == 'expit' else op, v), args[0])
+        if name in ('jax.nn.swish', 'jax.nn.silu'):
+            return elemwise(lambda v: Rat.lift(v) * uf('sigmoid', v), args[0])
+        if name == 'jax.lax.rsqrt':
+            return elemwise(lambda v: 1 / Rat.lift(JNP['sqrt'](v)), args[0])
+        if name.startswith('jax.lax.') and name.rsplit('.', 1)[1] in ('max', 'min', 'abs', 'exp', 'log', 'sqrt', 'sin', 'cos', 'tanh', 'sign',
+                                                                      'floor', 'ceil', 'square', 'neg', 'add', 'sub', 'mul', 'div'):
+            op = name.rsplit('.', 1)[1]
+            if op in ('max', 'min'):
+                return JNP[op + 'imum'](*args)
+            if op in ('neg', 'add', 'sub', 'mul', 'div'):
+                import operator as _o
+                return {'neg': lambda a: -asarr(a), 'add': lambda a, b: asarr(a) + asarr(b), 'sub': lambda a, b: asarr(a) - asarr(b),
+                        'mul': lambda a, b: asarr(a) * asarr(b), 'div': lambda a, b: asarr(a) / asarr(b)}[op](*args)
+            return JNP[op](*args)
+        if name in ('jax.lax.dynamic_slice', 'jax.lax.dynamic_slice_in_dim', 'jax.lax.dynamic_index_in_dim'):
+            x = asarr(args[0])
+            if name.endswith('dynamic_slice'):
+                starts = [toint(v) for v in args[1]]
+                sizes = [int(v) for v in args[2]]
+                starts = [max(0, min(st_, x.shape[k] - sz)) for k, (st_, sz) in enumerate(zip(starts, sizes))]
+                return x[tuple(slice(st_, st_ + sz) for st_, sz in zip(starts, sizes))]
+            start = toint(args[1])
+            if name.endswith('slice_in_dim'):
+                size = int(args[2]); ax = kw.get('axis', args[3] if len(args) > 3 else 0)
+                start = max(0, min(start, x.shape[ax] - size))
+                return np.take(x, range(start, start + size), axis=ax)
+            ax = kw.get('axis', args[2] if len(args) > 2 else 0)
+            keep = kw.get('keepdims', args[3] if len(args) > 3 else True)
+            start = max(0, min(start, x.shape[ax] - 1))
+            out = np.take(x, [start], axis=ax)
+            return out if keep else np.squeeze(out, axis=ax)
+        if name in ('jax.random.bernoulli', 'jax.random.choice', 'jax.random.categorical', 'jax.random.permutation', 'jax.random.gamma',
+                    'jax.random.exponential', 'jax.random.truncated_normal', 'jax.random.laplace', 'jax.random.bits'):
+            # samplers: uninterpreted functions of (key, every argument, position) -- equal calls give equal draws
+            op = name.rsplit('.', 1)[1]
+            shape = kw.get('shape', None)
+            if shape is None:
+                shape = next((a_ for a_ in args[1:] if isinstance(a_, tuple) and all(isinstance(v_, int) for v_ in a_)), ())
+            rest = tuple(a_ for a_ in args[1:] if not (isinstance(a_, tuple)))
+            a_ = np.empty(tuple(shape), dtype=object)
+            for idx in np.ndindex(*a_.shape):
+                a_[idx] = uf(op, asarr(args[0]), idx, *[asarr(r_) if isinstance(r_, (np.ndarray, list)) else r_ for r_ in rest])
+            return a_ if a_.shape else a_[()]
         if name == 'jax.lax.cond':
             c = args[0]
             c = c.constval() != 0 if isinstance(c, Rat) and c.is_const() else c
@@ -2895,7 +2987,7 @@ def _select(condlist, choicelist, default=0):
 JNP.update({
     'einsum': _einsum,
     'tensordot': lambda a, b, axes=2: np.tensordot(asarr(a), asarr(b), axes=axes),
-    'matmul': lambda a, b: np.matmul(asarr(a), asarr(b)),
+    'matmul': lambda a, b, precision=None, preferred_element_type=None: np.matmul(asarr(a), asarr(b)),
     'inner': lambda a, b: np.inner(asarr(a), asarr(b)),
     'vdot': lambda a, b: (asarr(a).ravel() * asarr(b).ravel()).sum(),
     'true_divide': lambda a, b: asarr(a) / asarr(b),
@@ -2942,6 +3034,36 @@ def _fromstring(x, dtype=None, count=-1, sep=' ', **kw):
 
 
 JNP['fromstring'] = _fromstring
+
+
+def _concrete(x, what):
+    vals = [Rat.lift(v) for v in asarr(x).ravel()]
+    if not all(v.is_const() for v in vals):
+        raise OutOfFragment('%s of abstract values' % what)
+    return np.array([float(v.constval()) for v in vals]).reshape(asarr(x).shape)
+
+
+# less common numpy / jax.numpy names (robustness against rewrites; each is a definition in terms of modelled primitives)
+JNP.update({
+    'absolute': lambda x: JNP['abs'](x), 'fabs': lambda x: JNP['abs'](x),
+    'fmin': lambda a, b: JNP['minimum'](a, b), 'fmax': lambda a, b: JNP['maximum'](a, b),
+    'array_equal': lambda a, b, **k: (asarr(a).shape == asarr(b).shape) and _all(elemwise(lambda x, y: Rat.lift(x)._cmp('==', y), a, b)),
+    'sinh': unary('sinh'), 'cosh': unary('cosh'), 'log2': unary('log2'), 'log10': unary('log10'), 'exp2': unary('exp2'),
+    'deg2rad': lambda x: asarr(x) * (pi() / 180), 'rad2deg': lambda x: asarr(x) * 180 / pi(),
+    'radians': lambda x: asarr(x) * (pi() / 180), 'degrees': lambda x: asarr(x) * 180 / pi(),
+    'ndim': lambda x: asarr(x).ndim, 'shape': lambda x: asarr(x).shape, 'size': lambda x: asarr(x).size,
+    'copy': lambda x: asarr(x).copy(),
+    'hypot': lambda a, b: elemwise(lambda x, y: JNP['sqrt'](Rat.lift(x) * Rat.lift(x) + Rat.lift(y) * Rat.lift(y)), a, b),
+    'diff': lambda x, n=1, axis=-1: np.diff(asarr(x), n=n, axis=axis),
+    'average': lambda x, axis=None, weights=None: (asarr(x).sum(axis=axis) / (asarr(x).size if axis is None else asarr(x).shape[axis])) if weights is None
+               else (asarr(x) * asarr(weights)).sum(axis=axis) / asarr(weights).sum(axis=axis),
+    'count_nonzero': lambda x, axis=None: np.count_nonzero(_concrete(x, 'count_nonzero'), axis=axis),
+    'sort': lambda x, axis=-1: np.sort(_concrete(x, 'sort'), axis=axis),
+    'argsort': lambda x, axis=-1: np.argsort(_concrete(x, 'argsort'), axis=axis, kind='stable'),
+    'dstack': lambda xs: np.dstack([asarr(x) for x in xs]),
+    'pad': lambda x, pad_width, mode='constant', constant_values=0: np.pad(asarr(x), pad_width, mode='constant',
+                                                                             constant_values=Rat.lift(constant_values)),
+})
 JNP['linalg']['det'] = lambda a: _det(asarr(a))
 
 
